@@ -18,18 +18,35 @@ LEVEL = "exploration"
 RULE = (
     "tables sub-check: all 27 codes x all 64 codons (DNA and RNA spelling) x every single-codon entry point, enumerated "
     "exhaustively; complement sub-check: every IUPAC symbol and every non-empty base subset x DNA/RNA x old/new moltype, "
-    "exhaustive. translate sub-check: Hypothesis-generated canonical sequences (length 0-45, occasionally > 768 nt), "
+    "exhaustive. translate sub-check: Hypothesis-generated canonical sequences (length 0-45, occasionally 46-765 or > 765 nt), "
     "code, DNA/RNA, translated through old/new GeneticCode.translate (3 starts, both strands), sixframes, old/new "
     "Sequence.get_translation (8 option combinations, also on reverse-complemented views), SequenceCollection / Alignment / "
     "ArrayAlignment / new-type collections and the translate_seqs app. Non-trivial = a case with code != 1, or a stop codon "
     "in some frame, or length not divisible by 3 read on the minus strand; distinct = distinct (code, sequence) pairs / "
-    "(code, codon) pairs."
+    "(code, codon) pairs. tables also pushes all 15^3 IUPAC codons (DNA and RNA spelling) through old/new GeneticCode.translate "
+    "(plus and minus strand) and old/new Sequence.get_translation for every code. complement also enumerates can_match for every "
+    "pair of IUPAC symbols and the gap, resolved_ambiguities, count_degenerate, possibilities/count_variants, is_degenerate and "
+    "(old) to_regex. protein sub-check: protein and protein_with_stop x old/new moltype, exhaustive: B, Z, X and every canonical "
+    "residue resolve to their residue sets, every pair of residues (and every triple extending a B/Z pair) re-encodes to the least "
+    "degenerate symbol, can_match for every symbol pair. frames sub-check: 1-3 generated nucleotide sequences (open frames on either "
+    "strand with lead/tail bases, planted internal/terminal/double stops, stop-rich and random sequences, ambiguity codes, DNA/RNA, "
+    "all codes) through app.translate.translate_frames, best_frame (allow_rc, require_stop) and the select_translatable app "
+    "(allow_rc, trim_terminal_stop, frame; unaligned and aligned inputs). collections sub-check: 2-3 rows that differ in length, "
+    "terminal/double/internal stops and ambiguity codes through old/new Sequence, old/new SequenceCollection, Alignment, "
+    "ArrayAlignment get_translation (3 of the 8 option combinations per case), has_terminal_stop, trim_stop_codons and the "
+    "translate_seqs app with and without trim_terminal_stop."
 )
 ASSUMPTIONS = [
     "reference tables are a snapshot pinned in the harness (identical in both independent copies in the repository at development time; tables 1 and 2 compared with the published NCBI strings)",
     "new GeneticCode.translate(s, start, rc=True) follows its documented rule: slice at start, truncate to a multiple of three, translate the reverse complement (pinned by tests/test_core/test_new_genetic_code.py::test_sizeframes); old translate raises ValueError when start is beyond the sequence",
     "old-style get_translation keeps a terminal stop when include_stop=True even if trim_stop=True; new-style trims it (both behaviours are deliberate and differently documented); each implementation is compared with its own rule",
-    "only canonical nucleotides are translated here (the statement quantifies over canonical sequences); sequences of length not divisible by three raise with the default strict trimming, as documented",
+    "the translate sub-check translates canonical nucleotides only; sequences of length not divisible by three raise with the default strict trimming, as documented",
+    "codons holding an IUPAC ambiguity code: both GeneticCode.translate implementations give 'X' (documented in __getitem__ / translate); new-style Sequence.get_translation gives 'X' with incomplete_ok=True and raises without (its docstring); old-style Sequence.get_translation translates every resolution of the codon, drops stop codons unless include_stop, and reports the least degenerate protein symbol (residue, B, Z or X), as pinned by tests/test_core/test_core_standalone.py::test_ambig_translate (CGN -> R, TGN -> X) and test_alignment.py::test_get_translation_with_stop; a codon whose every resolution is a stop (e.g. TAR) is neither trimmed as a terminal stop nor asserted when stops are excluded",
+    "gaps and '?' are not generated in translated sequences (gapped/incomplete codons are covered by other properties); can_match with '?' is not asserted (the two moltype implementations differ); count_degenerate is asserted on gap-free text only (new counts gaps, old does not)",
+    "protein X resolves to the whole canonical alphabet of the moltype (20 standard residues + U, and '*' for protein_with_stop); this is taken from the moltype's own alphabet, only B = {D, N}, Z = {E, Q} and the 20 standard residues are pinned independently",
+    "best_frame (docstring): returns a frame 'that has either no stops or a single terminal stop codon', with require_stop 'a terminal stop must be present', ValueError otherwise; frame k = 1..3 reads seq[k-1:], -k reads rc(seq)[k-1:] (GeneticCode.sixframes). When several frames qualify any of them is accepted (the docstring gives no tie rule); when exactly one qualifies it must be returned; when none qualifies ValueError is required. Sequences shorter than 3 nt are not generated (sixframes raises ValueError for them)",
+    "select_translatable (docstring + tests/test_app/test_translate.py): each kept sequence is the input oriented to the chosen frame, cut to whole codons from the frame start and, with trim_terminal_stop, without its terminal stop codon; with frame=k a sequence is excluded iff a stop occurs before the last codon of that frame (allow_rc is then irrelevant); excluded names are listed in info['translation_errors']; when nothing is translatable the app builds NotCompleted('FALSE', ...), so an ERROR-type result is reported (separate signature); aligned inputs are padded with trailing gaps which the app documents it removes (degap)",
+    "collection has_terminal_stop / trim_stop_codons without strict leave rows whose length is not a multiple of three untouched (documented: strict raises for such rows); alignments replace a trimmed stop by gaps (tests/test_core/test_alignment.py::test_get_translation_trim_stop)",
 ]
 
 BASES = "TCAG"
@@ -911,11 +928,13 @@ def translate_cases(draw):
     table = CODES[code][1]
     rna = draw(st.booleans())
     long_ = draw(st.integers(0, 24)) == 0
-    n = draw(st.integers(766, 800)) if long_ else draw(st.integers(0, 45))
+    medium = (not long_) and draw(st.integers(0, 24)) == 0
+    n = draw(st.integers(766, 800)) if long_ else draw(st.integers(46, 765)) if medium else draw(st.integers(0, 45))
     stop_codons = [c for c in ("".join(b) for b in itertools.product(BASES, repeat=3)) if aa_of(table, c) == "*"]
-    if long_:
-        unit = "".join(draw(st.lists(st.sampled_from(BASES), min_size=7, max_size=7)))
-        seq = (unit * (n // 7 + 1))[:n]
+    if long_ or medium:
+        u = 7 if long_ else 11
+        unit = "".join(draw(st.lists(st.sampled_from(BASES), min_size=u, max_size=u)))
+        seq = (unit * (n // u + 1))[:n]
     else:
         seq = "".join(draw(st.lists(st.sampled_from(BASES), min_size=n, max_size=n)))
     # plant stops: terminal and/or internal, in frame 0
@@ -991,6 +1010,19 @@ def exec_translate(case) -> Soft:
         trunc = trunc[: len(trunc) - len(trunc) % 3]
         want_minus = model_translate(table, model_rc(trunc)) if trunc else ""
         _cmp(s, "new/translate-minus", f"code {cid} {seq[:60]!r} start {k} rc=True", lambda: ng.translate(dna_str, k, rc=True), ("ok", want_minus))
+    # --- the new code object also takes index arrays (how sequences reach it); both modules resolve a code by name
+    if L:
+        from cogent3.core import new_moltype
+
+        oki, arr = s.call("new/to_indices", new_moltype.DNA.alphabet.to_indices, dna_str)
+        if oki:
+            for k in range(3):
+                evals += 1
+                _cmp(s, "new/translate-array", f"code {cid} {seq[:60]!r} start {k} (index array)", lambda: ng.translate(arr, k), ("ok", frames_plus[k]))
+    for impl, mod in (("old", old_gc), ("new", new_gc)):
+        okn, byname = s.call(f"{impl}/get_code-by-name", mod.get_code, CODES[cid][0])
+        if okn:
+            s.eq(byname.ID, cid, f"{impl}/get_code-by-name", f"get_code({CODES[cid][0]!r}).ID")
     # --- sixframes
     ok, dna_old = s.call("old/make_seq", make_seq, seq, name="q", moltype=mtn)
     ok2, dna_new = s.call("new/make_seq", make_seq, seq, name="q", moltype=mtn, new_type=True)
@@ -1127,7 +1159,7 @@ FUZZ = {
 
 META = {
     "technique": "exhaustive enumeration (27 codes x 64 codons, all IUPAC symbols/base subsets) plus Hypothesis-generated sequences, against pinned NCBI tables with TCAG index arithmetic",
-    "level_text": "The finite part of the property (every code table entry through every single-codon entry point; complement and ambiguity maps of every IUPAC symbol for DNA/RNA, old and new moltypes) is enumerated completely; multi-codon behaviour (frames, strands, stop handling, views, collections, alignments, the translate_seqs app) is explored with thousands of generated canonical sequences per run, including lengths around the 256-codon boundary.",
-    "level_note": "Trusts the pinned table snapshot in vlib/ncbi_codes.py and a 10-line reference translator. Degenerate/gapped codons (incomplete_ok paths) are not asserted.",
+    "level_text": "The finite part of the property (every code table entry through every single-codon entry point; all 3375 IUPAC codons per code; complement, matching and ambiguity maps of every IUPAC symbol for DNA/RNA and of B/Z/X for protein moltypes, old and new) is enumerated completely; multi-codon behaviour (frames, strands, stop handling, views, ragged collections, alignments, frame selection by best_frame / select_translatable, the translate_seqs app) is explored with thousands of generated sequences per run, including lengths around the 256-codon boundary, ambiguity codes and open frames on the reverse strand only.",
+    "level_note": "Trusts the pinned table snapshot in vlib/ncbi_codes.py and a 10-line reference translator. Gapped codons (incomplete_ok with gaps) and '?' are not asserted; when several reading frames qualify, any of them is accepted from best_frame.",
     "design_ref": "DESIGN.md section 1, C12",
 }
